@@ -148,7 +148,8 @@ func compareMethodInputParam(typ *types.Named) *types.Type {
 		if b.Kind() != types.Int {
 			continue
 		}
-		inputType := sig.Params().At(0).Type()
+		// any is an alias of interface{}: the parameter is the type the alias stands for
+		inputType := types.Unalias(sig.Params().At(0).Type())
 		return &inputType
 	}
 	return nil
